@@ -23,3 +23,10 @@ pub fn all() -> Vec<&'static Spec> {
 pub fn find(id: &str) -> Option<&'static Spec> {
     all().into_iter().find(|s| s.id == id)
 }
+
+pub fn c11_run_case(ctx: &mut crate::framework::Ctx, id: u64) {
+    (c11::SPEC.run_case)(ctx, id)
+}
+pub fn c13_run_case(ctx: &mut crate::framework::Ctx, id: u64) {
+    (c13::SPEC.run_case)(ctx, id)
+}
